@@ -34,14 +34,14 @@ theorem final_leaf_from_max_end (size : Nat) (hs : 1 ≤ size) (ends : List Ctx)
     (hk : k0 ≠ "__task_execution") (hsh : ∀ c ∈ ends, ShapeOK k0 rest c)
     (x : Val) (hx : getPath (finalContext size ends).data k0 rest = some x) :
     ∃ c ∈ ends, getPath c.data k0 rest = some x ∧
-      ∀ d ∈ ends, ver d.vers (keyOf k0 rest) ≤ ver c.vers (keyOf k0 rest) := by
+      ∀ d ∈ ends, ver d.vers (keyOf (esc k0) rest) ≤ ver c.vers (keyOf (esc k0) rest) := by
   rw [finalContext_eq_upstream size hs] at hx
   have hsh' : ∀ c ∈ finalOrder size ends, ShapeOK k0 rest c :=
     fun c hc => hsh c ((mem_finalOrder size ends c).mp hc)
   obtain ⟨c, hc, h1, h2⟩ := upstream_witness k0 rest hk _ hsh' x hx
   refine ⟨c, (mem_finalOrder size ends c).mp hc, h1, ?_⟩
   intro d hd
-  have := ver_upstream_ge (keyOf k0 rest) _ (fun e he => (hsh' e he).2.1) d ((mem_finalOrder size ends d).mpr hd)
+  have := ver_upstream_ge (keyOf (esc k0) rest) _ (fun e he => (hsh' e he).2.1) d ((mem_finalOrder size ends d).mpr hd)
   omega
 
 /-- a leaf that some end task holds is in the final context ("every variable published by an end task ... is
@@ -60,9 +60,9 @@ theorem final_keeps_every_leaf (size : Nat) (hs : 1 ≤ size) (ends : List Ctx) 
 theorem final_batch_size_independent (s1 s2 : Nat) (h1 : 1 ≤ s1) (h2 : 1 ≤ s2) (ends : List Ctx)
     (k0 : String) (rest : List String) (hk : k0 ≠ "__task_execution") (hsh : ∀ c ∈ ends, ShapeOK k0 rest c)
     (hcons : ∀ c1 ∈ ends, ∀ c2 ∈ ends, ∀ x1 x2, getPath c1.data k0 rest = some x1 →
-      getPath c2.data k0 rest = some x2 → ver c1.vers (keyOf k0 rest) = ver c2.vers (keyOf k0 rest) → x1 = x2) :
+      getPath c2.data k0 rest = some x2 → ver c1.vers (keyOf (esc k0) rest) = ver c2.vers (keyOf (esc k0) rest) → x1 = x2) :
     getPath (finalContext s1 ends).data k0 rest = getPath (finalContext s2 ends).data k0 rest ∧
-    ver (finalContext s1 ends).vers (keyOf k0 rest) = ver (finalContext s2 ends).vers (keyOf k0 rest) := by
+    ver (finalContext s1 ends).vers (keyOf (esc k0) rest) = ver (finalContext s2 ends).vers (keyOf (esc k0) rest) := by
   rw [finalContext_eq_upstream s1 h1, finalContext_eq_upstream s2 h2]
   apply upstream_order_independent k0 rest hk
   · intro c; rw [mem_finalOrder, mem_finalOrder]
@@ -75,7 +75,7 @@ theorem final_batch_size_independent (s1 s2 : Nat) (h1 : 1 ≤ s1) (h2 : 1 ≤ s
 theorem join_rows_order_independent (k0 : String) (rest : List String) (hk : k0 ≠ "__task_execution")
     (l1 l2 : List Ctx) (hp : l1.Perm l2) (hs : ∀ c ∈ l1, ShapeOK k0 rest c)
     (hcons : ∀ c1 ∈ l1, ∀ c2 ∈ l1, ∀ x1 x2, getPath c1.data k0 rest = some x1 → getPath c2.data k0 rest = some x2 →
-      ver c1.vers (keyOf k0 rest) = ver c2.vers (keyOf k0 rest) → x1 = x2) :
+      ver c1.vers (keyOf (esc k0) rest) = ver c2.vers (keyOf (esc k0) rest) → x1 = x2) :
     getPath (upstream l1).data k0 rest = getPath (upstream l2).data k0 rest :=
   (upstream_order_independent k0 rest hk l1 l2 (fun _ => hp.mem_iff) hs hcons).1
 
@@ -108,6 +108,7 @@ example : getPath (finalContext 2 [e0, e1, e2, e3, e4]).data "k" [] = getPath (f
   refine (final_batch_size_independent 2 20 (by decide) (by decide) _ "k" [] (by decide) (by decide) ?_).1
   intro c1 h1 c2 h2 x1 x2 g1 g2 hv
   simp only [List.mem_cons, List.mem_nil_iff, or_false] at h1 h2
+  have hk : esc "k" = "k" := by decide
   rcases h1 with rfl | rfl | rfl | rfl | rfl <;> rcases h2 with rfl | rfl | rfl | rfl | rfl <;>
     simp_all [e0, e1, e2, e3, e4, getPath, getPathVal, Dict.get?, ver, keyOf]
 
